@@ -148,6 +148,31 @@ Proof.
 Qed.
 Print Assumptions C03_numpy_end_aligned.
 
+(* 2-d arrays: only the ROWS are truncated / NaN-padded in front; the k columns are untouched (shape (n, k));
+   a fill method works column by column exactly as on a 1-d array *)
+Theorem C03_numpy_2d_rows_only n m k r : Forall (fun row => length row = k) r ->
+  let al := np_align_g (repeat None k) n r in
+  exists r', reindex_obj (TgLen n) m (OA2 k r) = OA2 k r' /\ length r' = n /\ Forall (fun row => length row = k) r' /\
+    (forall i, (i < n)%nat -> (i < length r)%nat -> nth (n - 1 - i) al (repeat None k) = nth (length r - 1 - i) r (repeat None k)) /\
+    (forall i, (i < n - length r)%nat -> nth i al (repeat None k) = repeat None k) /\
+    (forall j, colj j r' = arr_fill m (colj j al)).
+Proof.
+  intros HF al.
+  assert (Hal : Forall (fun row => length row = k) al).
+  { apply Forall_forall. intros row Hrow. destruct (np_align_g_rows (repeat None k) n r row Hrow) as [H| ->].
+    - rewrite Forall_forall in HF. apply HF. exact H.
+    - apply repeat_length. }
+  destruct (arr2_fill_shape m k al Hal) as [Hlen Hrows].
+  exists (arr2_fill m k al). split; [reflexivity|]. split; [rewrite Hlen; apply np_align_g_length|]. split; [exact Hrows|].
+  split; [intros i; apply np_align_g_end|]. split; [intros i; apply np_align_g_front|].
+  intros j. destruct m; simpl.
+  - reflexivity.
+  - assert (HF' : Forall (fun row => length row = length (repeat (@None Z) k)) al) by (rewrite repeat_length; exact Hal).
+    rewrite (proj1 (arr2_ffill_column j al _ HF')). rewrite nth_repeat'. reflexivity.
+  - exact (proj1 (arr2_bfill_column j k al Hal)).
+Qed.
+Print Assumptions C03_numpy_2d_rows_only.
+
 Theorem C03_numpy_length_by_policy h ls n : np_len h ls = Some n ->
   match h with
   | HI => (forall l, In l ls -> (n <= l)%nat) /\ In n ls
@@ -209,7 +234,8 @@ Example C03_example :
         TD [(5, TL [Leaf (OS [(0, None); (1, Some 5); (2, Some 5); (3, Some 7); (6, Some 8)]); Leaf (OX 7)]);
             (6, Leaf (OF [2] [(0, [None]); (1, [None]); (2, [None]); (3, [Some 4]); (6, [Some 4])]))];
         Leaf (OF [2] [(0, [None]); (1, [None]); (2, [None]); (3, [Some 9]); (6, [Some 9])])] /\
-  np_align 4 [Some 1; Some 2] = [None; None; Some 1; Some 2] /\ np_align 1 [Some 1; Some 2] = [Some 2].
+  np_align 4 [Some 1; Some 2] = [None; None; Some 1; Some 2] /\ np_align 1 [Some 1; Some 2] = [Some 2] /\
+  reindex_obj (TgLen 3) MFfill (OA2 2 [[Some 1; None]; [None; Some 4]]) = OA2 2 [[None; None]; [Some 1; None]; [Some 1; Some 4]].
 Proof.
   cbv zeta. split.
   - unfold wf_tree. simpl.
